@@ -262,7 +262,7 @@ func runUnit(res *common.Result) {
 	case "cancel-sched-big-b1":
 		cancelSched(1, true)
 	default:
-		if !hookUnits(res, each) && !handoverUnits(res, each) && !stageEnvUnits(res, each) && !outconcUnits(res) && !watchUnits(res) && !cockpitUnits(res) {
+		if !hookUnits(res, each) && !handoverUnits(res, each) && !stageEnvUnits(res, each) && !overlapUnits(res, each) && !outconcUnits(res) && !watchUnits(res) && !cockpitUnits(res) {
 			fmt.Fprintln(os.Stderr, "unknown unit", *common.Unit)
 			os.Exit(2)
 		}
